@@ -577,3 +577,14 @@ Example lz4_compress_example :
 Proof.
   eexists. split; [vm_compute; reflexivity|]. split; [vm_compute; lia|]. split; vm_compute; reflexivity.
 Qed.
+
+Theorem lz4_compress_spec_decode_thm : forall (St : Type) (look : St -> nat -> nat * St) (ins : St -> nat -> St)
+    (st0 : St) (x : list N) (cap : N),
+  bytes x -> compress_bound (nlen x) <= cap ->
+  exists out, compress_with look ins st0 x cap = Ok out /\ ValidLz4Output out x /\ spec_decode out = Some x.
+Proof.
+  intros St look ins st0 x cap B H.
+  destruct (lz4_compress_valid_thm St look ins st0 x cap B H) as (out & Hc & HV & _).
+  exists out. split; [exact Hc|]. split; [exact HV|].
+  apply spec_decode_complete, valid_output_denotes, HV.
+Qed.
